@@ -144,6 +144,19 @@ def read_classes(tree):
                     if s.name in ci.methods or s.name in ci.props:
                         raise Reject("%s.%s defined twice" % (ci.name, s.name))
                     ci.methods[s.name] = s
+                elif decs == ["staticmethod"]:
+                    # no receiver: every parameter is an unknown value (`any`); give it an unused receiver slot so
+                    # that it is a method like the others (calls self.f(..) / C.f(..) then bind nothing to it)
+                    if s.name in ci.methods or s.name in ci.props:
+                        raise Reject("%s.%s defined twice" % (ci.name, s.name))
+                    import copy
+                    s2 = copy.deepcopy(s)
+                    s2.decorator_list = []
+                    s2.args.args.insert(0, ast.arg(arg="__static_receiver__"))
+                    for n in ast.walk(s2):
+                        if isinstance(n, ast.Name) and n.id == "__static_receiver__":
+                            raise Reject("%s.%s: reserved name" % (ci.name, s.name))
+                    ci.methods[s.name] = ast.fix_missing_locations(s2)
                 elif decs == ["property"]:
                     if s.name.startswith("_"):
                         raise Reject("private property %s.%s" % (ci.name, s.name))
